@@ -34,6 +34,48 @@ T = [
  ("C05-strict-prefix-child", "C05", "sub-agent",
   "two cooperating edits (strict-prefix test for the children + equality check removed as 'subsumed'): only the proof anchored at the direct parent with the member leaf itself as one child verifies",
   "VIOLATION C05 with failing input (anchor of length 255). First run: Verus front end could not resolve get_prefix_ordering in unit verify_base (the search still raised the violation) -> PrefixOrdering / get_prefix_ordering / get_prefix / get_len stubs added to the unit, now #E_sound fails deductively too"),
+ ("C15-batch-get-cache-first", "C15", "sub-agent",
+  "a storage manager WITH a cache, the record already cached, an open transaction rewriting that same key, and a BATCHED get (single gets unaffected)",
+  "First run: NOT DETECTED (gets were outside the claim) -> get_from_cache_only / get / batch_get brought under contract (R-CONTINUE, R-COLLECT); now VIOLATION C15 no-failing-input-found: manager/StorageManager.batch_get#I_provenance (a cache hit is only allowed for a key without a pending record)"),
+ ("C15-leq-epoch-tie", "C15", "sub-agent",
+  "a pending record with the SAME epoch as the best database match (as tombstoning produces) queried with LeqEpoch",
+  "VIOLATION C15 no-failing-input-found: manager/StorageManager.compare_db_and_transaction_records#E_wins"),
+ ("C17-derived-ord", "C17", "sub-agent",
+  "labels of DIFFERENT length whose byte order contradicts their length order (e.g. '1' vs '00'); equal-length labels unaffected",
+  "VIOLATION C17: Kani c17_cmp_contract fails and the pair search gives the failing input (cmp of two labels)"),
+ ("C17-partition-duplicates", "C17", "sub-agent",
+  "a set holding the same label at least twice, partitioned around that very label (sorted path only)",
+  "VIOLATION C17 with failing input from the bounded set-operation enumeration (multisets with repeated labels): sorted partition != unsorted partition"),
+ ("C04-empty-insert-rehash", "C04", "sub-agent",
+  "an audit starting at epoch 0 (the only case where the auditor rebuilds a tree from an empty node set): the empty insert then rewrites the root with a non-canonical hash",
+  "First run: NOT DETECTED -> top level of batch_insert_nodes brought under contract; now VIOLATION C04 no-failing-input-found: azks_audit/Azks.batch_insert_nodes#body (recursive insertion / root write entered with an empty set)"),
+ ("C04-range-guards", "C04", "sub-agent",
+  "two cooperating sites (Directory::audit and Azks::get_append_only_proof each weakened so that the other masks it): a range starting before and ending after the current epoch",
+  "VIOLATION C04 no-failing-input-found: azks_audit/Azks.get_append_only_proof#I_range / #E_refuse"),
+ ("C11-history-filter-order", "C11", "sub-agent",
+  "partial commit in which the queried label's new value record is already stored, and a MostRecent(n) history request",
+  "NOT DETECTED (exit 0): the change is in Directory::key_history (server-side history generation: closures over Vec inside a long async fn, C03 territory); the C11 claim is record-level"),
+ ("C11-first-epoch-previous", "C11", "sub-agent",
+  "the very first publish (0 -> 1) on a fresh directory, observed while the root record is stored but the epoch record is not",
+  "VIOLATION C11 no-failing-input-found: tree_node/TreeNode.write_to_storage#E_record"),
+ ("C08-marker-bound", "C08", "sub-agent",
+  "the epoch equals one of the future markers of n (e.g. n = 5 at epoch 6) and the label was updated in every epoch (same one-token change as C07-marker-bound, found independently)",
+  "VIOLATION C08: markers/get_marker_versions#E_future with failing input get_marker_versions(1, 2, 3)"),
+ ("C08-gap-vs-lookup", "C08", "sub-agent",
+  "a dishonest tree in which version k was added without retiring k-1, a history with a hole exactly at k, and a lookup proof for k-1",
+  "First run: NOT DETECTED by C08 (the clause was alarm-tagged for C07 only) -> verifier units and lemma L2 added to C08; now VIOLATION C08 no-failing-input-found: verify_history/verify_with_history_params#I_consecutive"),
+ ("C20-cutoff-version-field", "C20", "sub-agent",
+  "a label whose versions lag behind the epochs (not updated in every epoch) and a cut-off falling into that gap",
+  "VIOLATION C20 no-failing-input-found: manager/StorageManager.tombstone_value_states#I_only_tombstones (a written record must re-key a state with epoch <= cut-off)"),
+ ("C20-lenient-params-dropped", "C20", "sub-agent",
+  "AllowMissingValues combined with MostRecent(n) on a label with more than n versions",
+  "First run: exit 2 (HistoryParams::default() did not resolve in the unit) -> Default impls added, E_shape alarm-tagged for C20; now VIOLATION C20 no-failing-input-found: verify_history/key_history_verify#E_shape"),
+ ("C18-label-len-unchecked", "C18", "sub-agent",
+  "only the label_len field of the claimed node label is altered (same value bytes); honest proofs always use 256",
+  "VIOLATION C18 no-failing-input-found: verify_base/verify_label#E_label"),
+ ("C18-pubkey-length", "C18", "sub-agent",
+  "a public key altered by APPENDING bytes (bit flips and truncations are still refused)",
+  "NOT DETECTED (exit 0): the change is inside ecvrf_impl.rs (TryFrom<&[u8]> for VRFPublicKey), which the C18 claim lists as trusted/external (curve arithmetic behind it is out of Kani's reach)"),
 ]
 rows = []
 for (sid, prop, src, needs, res) in T:
